@@ -10,6 +10,8 @@ R10.2 length agreement: `encode` is the one-byte trait default except for the pu
 R10.3 error exits     : every Err exit of the disassembler is enumerated; allowed are empty input and offsets beyond
                         u32; each fallible constructor call is discharged by interval reasoning over the arm's bytes or,
                         for the push constructor's length equation, by the counter discipline sub-checks.
+R10.5 stream integrity : the instruction stream is constructed from the disassembler's output as it stands; push immediates are
+                        never jump destinations (C08 R08.1 / R08.4 re-evaluated).
 R10.4 hard assertion  : the post-disassembly round-trip assertion is discharged by R10.1+R10.2 (shared with C01).
 """
 from .. import facts as F
@@ -555,6 +557,43 @@ def check(fx, rep, tier):
     rep.extra["hard_round_trip_assertions"] = len(asserts)
     for b, n in asserts:
         rep.inst("R10.4", f"assert_eq in {b['def']}", sample={"rule": "R10.4", "at": F.loc(n["span"]), "discharged_by": "R10.1+R10.2+R10.3 all holding"})
+
+    # ---------------------------------------------------------------- R10.5 ----------------
+    # the stream *is* the disassembler's output: every construction of the instruction stream takes the vector the byte
+    # table produced as it stands (no re-mapping / interning / filtering of entries: two entries with equal encodings need not
+    # be the same instruction - the INVALID that stands for a byte of a cut-off immediate encodes like the opcode of that byte)
+    STREAM = "disassembly::InstructionStream"
+    n_ctor = 0
+    dis_fn = F.strip_generics(dm.fn["def"]) if dm.fn else None
+    for b in fx.fn_bodies():
+        if not b.get("hir"):
+            continue
+        for n, ps in F.walk(b["hir"]["value"]):
+            if n.get("k") != "Struct" or n.get("adt") != STREAM:
+                continue
+            n_ctor += 1
+            mutated = T.mutated_locals(b["hir"]["value"])
+            fe = next((f["e"] for f in n["fields"] if f["field"] == "instructions"), None)
+            t = T.term(fe, T.env_at(ps, n, mutated), mutated) if fe is not None else ("opaque",)
+            # peel Rc::new / Arc::new / into
+            while t[0] == "call" and isinstance(t[1], str) and F.strip_generics(t[1]).split("::")[-1] in ("new", "into", "from") and len(t[2]) == 1 and ("Rc" in t[1] or "Arc" in t[1] or "into" in t[1] or "From" in t[1]):
+                t = t[2][0]
+            direct = t[0] == "call" and isinstance(t[1], str) and F.strip_generics(t[1]) == dis_fn
+            copies = t[0] in ("field", "local")  # clone of an existing stream's vector
+            rep.oblige(
+                direct or copies,
+                "R10.5",
+                f"stream-is-disassembly:{F.strip_generics(b['def'])}",
+                F.loc(n["span"]),
+                f"`{b['def']}` builds the instruction stream from `{T.short(t)[:70]}` rather than from the disassembler's output as it stands: entries are re-mapped after disassembly, so the entry at an offset need not be the instruction the byte table produced for it",
+                sample={"rule": "R10.5", "fn": b["def"], "instructions": T.short(t)[:60]},
+            )
+    rep.floor("R10.5", n_ctor, 1, "constructions of the instruction stream")
+    # push immediates are never jump destinations: the validator tests the *type* of the entry and JUMPDEST entries come only
+    # from byte 0x5b of the table (C08 R08.1 / R08.4, re-evaluated)
+    from .. import core
+
+    core.import_rules(rep, fx, "C08", "R10.5", only_rules=("R08.1", "R08.4"), floor=5, what="jump-destination obligations (C08 R08.1 / R08.4) behind 'push immediates are never jump destinations'")
 
     rep.exhaustive = True
     return rep.finish(
